@@ -369,6 +369,13 @@ func (l *breaker) markWordOptionUnused() {
 	l.isUnusedWord = true
 }
 
+// markWordOptionInvalid records that the option just returned by nextWordBreak
+// cannot be used (it is incompatible with the shaped text): it must not become
+// the previousWordBreak, since the graphemes before it have not been tried yet.
+func (l *breaker) markWordOptionInvalid() {
+	l.unusedWordBreak = l.previousWordBreak
+}
+
 // nextGraphemeBreak returns the next grapheme cluster boundary break between
 // the previous and current word boundary, if any. If it returns false, there are no
 // more candidates between the previous and current word boundaries.
@@ -1057,6 +1064,7 @@ func (l *LineWrapper) wrapNextLine(config lineConfig) (done bool) {
 		switch result, candidateRun := l.processBreakOption(option, config); result {
 		case breakInvalid:
 			l.restore()
+			l.breaker.markWordOptionInvalid()
 			continue
 		case fits:
 			l.scratch.markCandidateBest(candidateRun)
